@@ -104,6 +104,29 @@ pub fn contract_window(n: u32, k: u32) {
     }
 }
 
+/// SAMPLED contract of OnlineState::ack_chunks on long resend queues (the Verus unit proves it for every queue, but the predicate of
+/// the `position` adapter is part of a substitution there, so a changed predicate is a lost anchor): the queue holds consecutive
+/// sequence numbers, newest first; afterwards it is exactly the part in front of the entry whose sequence number IS `ack`, or
+/// unchanged if there is none -- also when 512 or more chunks are waiting
+#[cfg(not(kani))]
+pub fn contract_ack_chunks(len: usize, newest: u16, ack: u16) {
+    let mut cb = sim::Cb { out: Vec::new(), now_us: 1_000_000, rng: 1, fail: 0 };
+    let mut o = OnlineState::new(None);
+    for i in 0..len {
+        // entry i (from the front) carries sequence newest - i
+        let s = Sequence::from_u16((newest + M - (i as u16 % M)) % M);
+        o.resend_queue.push_back(ResendChunk::new(&mut cb, s, &[i as u8, (i >> 8) as u8]));
+    }
+    let before: Vec<u16> = o.resend_queue.iter().map(|c| c.sequence.to_u16()).collect();
+    o.ack_chunks(Sequence::from_u16(ack));
+    let after: Vec<u16> = o.resend_queue.iter().map(|c| c.sequence.to_u16()).collect();
+    let cut = before.iter().position(|&s| s == ack).unwrap_or(before.len());
+    assert!(after == before[..cut], "ack_chunks: the queue is not cut exactly at the acknowledged entry");
+    for (i, c) in o.resend_queue.iter().enumerate() {
+        assert!(&c.data[..] == &[i as u8, (i >> 8) as u8], "ack_chunks: a queued chunk changed");
+    }
+}
+
 pub mod proofs {
     use super::draw;
     use super::draw::harness;
@@ -143,4 +166,17 @@ pub mod proofs {
         super::sim::simulate(&ops, settle);
     });
 
+    #[cfg(not(kani))]
+    harness!(sampled_ack_chunks_v6, unwind = 1, {
+        let len = [0usize, 1, 2, 3, 511, 512, 513, 600, 1023][draw::usize_le(8)];
+        let newest = draw::u16() & 0x3ff;
+        // an ack inside the queue, just outside it, or anywhere
+        let ack = match draw::usize_le(2) {
+            0 => (newest + super::M - (draw::usize_le(1023) as u16 % super::M)) % super::M,
+            1 => (newest + 1 + draw::usize_le(3) as u16) % super::M,
+            _ => draw::u16() & 0x3ff,
+        };
+        draw::reached();
+        contract_ack_chunks(len, newest, ack);
+    });
 }
